@@ -7,6 +7,7 @@ assumed contract of stream.write).  "the marker '---' is written" is then a stat
 import z3
 from pyvc.spec import contract, fields, define, extern
 from pyvc.z3v import *
+from pyvc.calls import has_chunk_lemmas as _has_chunk_lemmas
 
 E = 'yaml.emitter.Emitter.'
 EERR = 'yaml.emitter.EmitterError'
@@ -299,9 +300,13 @@ contract(E + 'expect_document_end', props=['C12', 'C15'],
     requires=["inv_pos(self)"],
     ensures=["inv_pos(self)", "typeis(self.event, 'obj:yaml.events.DocumentEndEvent')", "self.state == func('expect_document_start')",
              # C15: explicit_end produces the '...' marker
-             "as_(self.event, 'obj:yaml.events.DocumentEndEvent').explicit ==> (seq_contains(LOG(self), old(len(LOG(self))), ENC(self, '...')) or seq_contains(LOG(self), old(len(LOG(self))), ENC(self, ' ...')))",
+             "as_(self.event, 'obj:yaml.events.DocumentEndEvent').explicit ==> (has_chunk(LOG(self), old(len(LOG(self))), ENC(self, '...')) or has_chunk(LOG(self), old(len(LOG(self))), ENC(self, ' ...')))",
              "prefix_of(old(LOG(self)), LOG(self))"],
     labels={0: 'inv_pos', 1: 'accepts-only-document-end', 2: 'next-document-is-never-first', 3: 'document-end-marker-written', 4: 'append-only'},
+    axioms=[_has_chunk_lemmas],
+    # the marker is the last chunk right after it is written; later writes only append
+    cuts=[("self.write_indicator('...', True)", ["has_chunk(LOG(self), old(len(LOG(self))), ENC(self, '...')) or has_chunk(LOG(self), old(len(LOG(self))), ENC(self, ' ...'))",
+                                                 "prefix_of(old(LOG(self)), LOG(self))"])],
     modifies=_WR + ['self.state'], raises=[EERR] + ENCERR, raises_any=True)
 
 contract(E + 'expect_stream_start', props=['C05', 'C15'],
@@ -518,3 +523,16 @@ for _n in ['expect_first_flow_sequence_item', 'expect_flow_sequence_item', 'expe
     estate(_n)
 for _n in ['expect_block_sequence_item', 'expect_block_mapping_key']:
     estate(_n, params={'first': 'bool'})
+
+# the five document-level states carry EST too (kind OUT: empty stacks, flow_level 0): they do not touch the stacks, so this is their
+# frame restated as the typing every node state relies on -- the chain "what a state ensures is what the state it installs requires"
+# is then closed over all 18 states
+from pyvc.spec import REG as _REG
+for _n in ['expect_stream_start', 'expect_first_document_start', 'expect_document_start', 'expect_document_end']:
+    _c = _REG.contracts[E + _n]
+    _c.axioms = list(_c.axioms) + [emitter_tables]
+    _c.requires.append(est(_n))
+    _c.ensures.append(est_after)
+    _c.labels[len(_c.ensures) - 1] = 'stack-typing-preserved'
+    if 'C05' not in _c.props:
+        _c.props.append('C05')
